@@ -57,6 +57,11 @@ pub fn reconcile_aliases(crate_parsed_data: &mut BTreeMap<CrateName, ParsedData>
             check_type(crate_name, &serde_renamed, &import_types, &mut a.r#type);
         }
 
+        // update references to renamed ids in the types of constants.
+        for c in &mut parsed_data.consts {
+            check_type(crate_name, &serde_renamed, &import_types, &mut c.r#type);
+        }
+
         // Apply sorting to types for deterministic output.
         parsed_data.structs.sort();
         parsed_data.enums.sort();
